@@ -55,6 +55,27 @@ def c17_r1(ctx):
     for site, want in MODE_SITES.items():
         if site not in seen:
             raise AnalysisError("reviewed mode site %s no longer passes a literal mode; re-confirm the table" % site)
+    # per call: every analysis of user query text in the parser says mode="query" (or forwards a `mode` it was given):
+    # tokenize()/process_text() default to an empty / index-time mode, under which n-gram analyzers emit every gram size
+    # and MultiFilter picks its default branch
+    nq = 0
+    for f in prog.functions.values():
+        if not f.module.name.startswith("whoosh.qparser"):
+            continue
+        for c in norm.calls_in(f.node, include_nested_defs=True):
+            if norm.call_name(c) not in ("tokenize", "process_text") or not isinstance(c.func, ast.Attribute):
+                continue
+            nq += 1
+            ctx.saw(f)
+            modes = [k for k in c.keywords if k.arg == "mode"]
+            okm = any(isinstance(k.value, ast.Constant) and k.value.value == "query" for k in modes) or \
+                any(isinstance(k.value, ast.Name) and k.value.id == "mode" for k in modes) or \
+                (norm.call_name(c) == "process_text" and len(c.args) >= 2)
+            ctx.ob(f, okm, "%s(...) on query text passes mode=\"query\"" % norm.canon(c.func),
+                   detail="without it the field's analyzer runs in its default mode: query text is analysed differently from the single-word path",
+                   loc=ctx.nodeloc(f, c))
+    if nq < 4:
+        raise AnalysisError("only %d analysis calls found in the query parser" % nq)
     # the analyzer is the field's own
     ad = prog.method("writing.SegmentWriter", "add_document", inherited=False)
     AA = pm.Alpha(ad)
